@@ -456,7 +456,7 @@ func clip(s string) string {
 func runC01Attest(rc *RunCtx) {
 	W := int64(3 + rc.Intn(4))
 	C := int64(2 + rc.Intn(4))
-	fs := int64(1 + rc.Intn(2))
+	fs := int64(1 + rc.Intn(3))
 	sp := storageParams(W, C, 1024)
 	sp.CollateralPrice = 1000
 	sp.AttestFormSize = fs
@@ -576,11 +576,14 @@ func runC01Attest(rc *RunCtx) {
 		rc.NonTrivial(fmt.Sprintf("attest/W%d/C%d/form%d/refused", W, C, fs))
 		return
 	}
+	// distinct named providers, the lapsed co-prover last
 	var signers []int
 	aNamed := false
+	seenNamed := map[int]bool{}
 	for _, a := range resp.Providers {
 		for i := 1; i <= 4; i++ {
-			if c.Accs[i].Bech == a && i != A {
+			if c.Accs[i].Bech == a && i != A && !seenNamed[i] {
+				seenNamed[i] = true
 				signers = append(signers, i)
 			}
 		}
@@ -591,12 +594,24 @@ func runC01Attest(rc *RunCtx) {
 	if aNamed {
 		signers = append(signers, A) // the lapsed co-prover completes the quorum
 	}
-	all := int64(len(signers)) == fs
-	for _, i := range signers {
+	// sometimes one named provider stays away and another signs twice instead: fs-1 distinct signers are no quorum
+	short := fs >= 2 && len(signers) >= 2 && rc.Chance(0.4)
+	order := append([]int{}, signers...)
+	if short {
+		order = append(order[:len(order)-1], order[0])
+		rc.Count("attestation_forms_one_signer_short", 1)
+	}
+	distinct := map[int]bool{}
+	for _, i := range order {
 		r := c.DeliverAs(i, &storagetypes.MsgAttest{Creator: c.Accs[i].Bech, Prover: c.Accs[P].Bech, Merkle: f.Root(), Owner: wf.OwnerAddr, Start: wf.Start})
 		rc.Logf("h=%d attest by acc%d -> code %d %s", c.Height, i, r.Code, failLog(r))
-		all = all && r.OK()
+		if r.OK() {
+			distinct[i] = true
+		}
 	}
+	// the minimum equals the form size: the quorum is complete only when that many DISTINCT named providers have signed
+	// (a form that names one provider twice, or a provider signing twice, does not get there)
+	all := int64(len(distinct)) >= fs
 	if all {
 		quorumAt = c.Height
 		lastValid[c.Accs[P].Bech] = c.Height
